@@ -268,3 +268,36 @@ def srf_iso(ctx, dim):
     got = srf(pos, store=False)
     direct = srf.generator(mod.isometrize(pos), add_nugget=False)
     ctx.ensure("field(x)=generator(isometrize(x))", ctx.eq(got, direct))
+
+
+# --- variance upscaling (`point_volumes`): the generated field is rescaled to the upscaled variance ------------
+@contract(P, "SRF.__call__[point_volumes]/field-rescaled-to-the-upscaled-variance",
+          params=[{"up": u, "nug": n, "dim": d} for u in ("no_scaling", "coarse_graining") for n in ("zero", "pos") for d in (1, 2)
+                  if not (u == "coarse_graining" and n == "pos")],
+          functions=["field/srf.py:SRF.__call__", "field/upscaling.py:var_coarse_graining", "field/upscaling.py:var_no_scaling"],
+          nsamples=1, search=10, timeout=60)
+def srf_upscaling(ctx, up, nug, dim):
+    """the raw field (incl. nugget noise) has pointwise variance sill = var + nugget; with `point_volumes` it is
+    multiplied by sqrt(scaled_var / sill): unchanged for 'no_scaling' (scaled_var = sill), variance
+    sill * (l^2 / (l^2 + (V^(1/d)/2)^2))^(d/2) for 'coarse_graining' (documented formula)"""
+    m = ctx.m
+    mod = sym_model(ctx, dim, nugget=(nug == "pos"), aniso=False)
+    if nug == "pos":
+        ctx.require(ctx.gt(mod.nugget, 0))
+    s = ctx.integer("seed", lo=1, hi=1000)
+    x = [[0.25, 1.5]] * dim
+    V = ctx.real("volume", lo=0.2, hi=3.0)
+    ctx.require(ctx.gt(V, 1e-4))
+    base = _q(gs.SRF, mod, seed=s, mode_no=2)(x)
+    got = _q(gs.SRF, mod, seed=s, mode_no=2, upscaling=up)(x, point_volumes=V)
+    ctx.ensure("shape", ctx.shape_eq(got, np.shape(base)))
+    if up == "no_scaling":
+        ctx.ensure("no_scaling:field-unchanged", ctx.eq(got, base))
+    else:
+        l = mod.len_scale
+        edge = m.pow(V, 1.0 / dim)
+        fac = m.pow(l ** 2 / (l ** 2 + edge ** 2 / 4), dim / 2.0)
+        # field = base * sqrt(fac): stated without the square root as field^2 = base^2 * fac, same sign
+        ctx.ensure("coarse_graining:field^2=raw^2*variance-factor",
+                   ctx.And(*[ctx.eq(got[i] * got[i], base[i] * base[i] * fac) for i in range(2)]))
+        ctx.ensure("coarse_graining:sign-kept", ctx.And(*[ctx.ge(got[i] * base[i], 0) for i in range(2)]))
